@@ -54,7 +54,16 @@ def install():
     def on_start(code, off):
         if not _lib(code):
             return mon.DISABLE
+        if code not in _line_state:
+            # functions of the library that write shared state (attribute / item / global stores) are pre-empted
+            # at every executed source line, not only at calls: a window between two plain assignments counts
+            w = _line_state[code] = _writes_state(code)
+            if w and _line_on["v"]:
+                mon.set_local_events(TOOL, code, E.LINE)
         pt(code, "start")
+
+    def on_line(code, lineno):
+        pt(code, "line")
 
     def on_jump(code, off, dst):
         if not _lib(code):
@@ -73,13 +82,39 @@ def install():
     mon.register_callback(TOOL, E.PY_START, on_start)
     mon.register_callback(TOOL, E.JUMP, on_jump)
     mon.register_callback(TOOL, E.CALL, on_call)
+    mon.register_callback(TOOL, E.LINE, on_line)
     _installed["v"] = True
+
+
+_line_state = {}          # code object -> bool (writes shared state)
+_line_on = {"v": False}
+_STORES = {"STORE_ATTR", "STORE_SUBSCR", "DELETE_SUBSCR", "DELETE_ATTR", "STORE_GLOBAL"}
+
+
+def _writes_state(code):
+    import dis
+    try:
+        return any(i.opname in _STORES for i in dis.get_instructions(code))
+    except Exception:  # noqa: BLE001
+        return False
+
+
+def line_points():
+    """how many library functions are pre-empted line by line (evidence)"""
+    return sum(1 for v in _line_state.values() if v)
 
 
 def enable(on=True):
     mon = sys.monitoring
     E = mon.events
     mon.set_events(TOOL, (E.PY_START | E.JUMP | E.CALL) if on else 0)
+    _line_on["v"] = bool(on)
+    for code, w in list(_line_state.items()):
+        if w:
+            try:
+                mon.set_local_events(TOOL, code, E.LINE if on else 0)
+            except Exception:  # noqa: BLE001
+                pass
 
 
 class SchedLock:
